@@ -47,15 +47,22 @@ def workload(tier, rnd):
         pool = pcs[d]
         ps = [rnd.choice(pool[:len(TRICKY.get(d, TRICKY["ansi"]))] if rnd.random() < 0.3 else pool) for _ in range(k)]
         seps = [rnd.choice(PREFIX)] + [rnd.choice(SEPS) for _ in range(k - 1)] + [rnd.choice(SUFFIX)]
-        jobs.append({"pieces": ps, "seps": seps, "dialect": d, "mode": "semicolon"})
+        jobs.append({"pieces": ps, "seps": seps, "dialect": d, "mode": "semicolon", "order": _order(len(jobs))})
     # tsql without semicolons
     tp = pcs["tsql"]
     for i in range(n // 9):
         k = rnd.choice([1, 2, 3, 4])
         ps = [rnd.choice(tp) for _ in range(k)]
         seps = [rnd.choice(["", "\n", "-- lead\n"])] + [rnd.choice(TSQL_SEPS) for _ in range(k - 1)] + [rnd.choice(["", "\n", ";", "\n-- tail"])]
-        jobs.append({"pieces": ps, "seps": seps, "dialect": "tsql", "config": {"TSQL_NO_SEMICOLON": True}, "mode": "tsql_no_semicolon"})
+        jobs.append({"pieces": ps, "seps": seps, "dialect": "tsql", "config": {"TSQL_NO_SEMICOLON": True}, "mode": "tsql_no_semicolon", "order": _order(len(jobs))})
     return jobs
+
+
+def _order(i):
+    """the statement list is asked for first, last, or between the lineage accessors"""
+    from vlib.observe import ACCESSORS
+    rest = [a for a in ACCESSORS if a != "statements"]
+    return [["statements"] + rest, rest + ["statements"], rest[:2] + ["statements"] + rest[2:]][i % 3]
 
 
 def run(tier):
@@ -69,7 +76,7 @@ def run(tier):
     skipped = 0
     modes = {}
     for j, (st, r) in zip(jobs, res):
-        b = {"pieces": j["pieces"], "seps": j["seps"], "dialect": j["dialect"], "config": j.get("config")}
+        b = {"pieces": j["pieces"], "seps": j["seps"], "dialect": j["dialect"], "config": j.get("config"), "order": j.get("order")}
         if not run_.pool_status(st, r, b):
             run_.case()
             continue
@@ -110,7 +117,7 @@ def replay(path):
     rep = common.load_replay(path)
     c = rep["case"]
     with Pool(1) as pool:
-        st, r = pool.call(0, "vlib.scripts:run_script", {"pieces": c["pieces"], "seps": c["seps"], "dialect": c["dialect"], "config": c.get("config")}, timeout=300)
+        st, r = pool.call(0, "vlib.scripts:run_script", {"pieces": c["pieces"], "seps": c["seps"], "dialect": c["dialect"], "config": c.get("config"), "order": c.get("order")}, timeout=300)
     print(st, r)
     bad = st == "ok" and "skipped" not in r and (r["outcome"] != "ok" or r["statements"] != r["expected_statements"] or r["combined"] != r["script_result"])
     if bad:
